@@ -21,7 +21,7 @@ CONFIGS["C08"] = dict(
     race_thorough=dict(runs=20000, per_proc=250, budget_s=1500),
     det_seeds=24,
     rule="programs generated from a seed: W=1..4 workers (closures started with `go`), 1-5 steps each from {mutex-guarded "
-         "increment / map element / slice element / helper call / pointer store / loop, RWMutex read/write, channel send, "
+         "increment / map element / slice element / field of a declared-type struct / helper call / pointer store / loop, RWMutex read/write, channel send, "
          "local computation}, buffered channel cap 1..4, main drains the channel and waits on a WaitGroup (either order); half "
          "of the programs instead start their workers from a function called from main (or two calls deep) while main keeps "
          "declaring locals and the workers call a named function in a loop (sharing only a channel and a WaitGroup); "
